@@ -142,3 +142,119 @@ def run_loader_kernel(C, P):
         C.validation_mismatch(f"repeated-import projects fail on the unchanged tree: {rep['artefact']}")
     else:
         C.validated_against_impl(3)
+
+
+# ---------------------------------------------------------------------------------------------------------------------
+# Part D — the loader's `fun` arm maintains `exported_syms`: after loading `fun f` / `public fun f`, f is exported iff
+# this definition is public — also when f was defined before with the other visibility (a file that defines a name
+# twice, or a session that re-evaluates a definition) — and no other name's export status changes.
+
+def run_fun_item(ctx, P):
+    import z3 as _z3
+    fc = _z3.BitVec("d_fname", 32)
+    oc = _z3.BitVec("d_other", 32)
+    fname = Struct("SymbolName", {"text": Str([Char(fc)])})
+    oname = Struct("SymbolName", {"text": Str([Char(oc)])})
+    public = ctx.choose([True, True]) == 0
+    n_exp = ctx.choose([True, True])        # exported_syms before: empty, or one symbolic name (possibly f itself)
+    n_val = ctx.choose([True, True])        # values before: empty, or the same symbolic name bound to an older value
+    stub = ctx.choose([True, True]) == 0    # is_built_in_stub answers either way
+    old_val = Opaque("older_definition")
+    ns = Struct("NamespaceInfo", {"values": Map([(oname, old_val)] if n_val else []),
+                                  "exported_syms": Map([(oname, UNIT)] if n_exp else []),
+                                  "abs_path": Opaque("abs_path")}, partial=True)
+    name_symbol = Struct("Symbol", {"name": fname, "position": Opaque("f.pos"), "id": Opaque("f.id")}, partial=True)
+    vis = Enum("Visibility", "Public", [Opaque("pub.pos")]) if public else Enum("Visibility", "CurrentFile", [])
+    item = Enum("ToplevelItem", "Fun", [name_symbol, Opaque("fun_info"), vis])
+    nat = {"is_built_in_stub": lambda I, a, n: stub, "update_built_in_fun_info": lambda I, a, n: UNIT,
+           "Type::from_fun_info": lambda I, a, n: ok(Opaque("fun_ty")), "Stack::type_bindings": lambda I, a, n: Opaque("tb"),
+           "ToplevelItem::position": lambda I, a, n: Struct("Position", {"path": Opaque("item.path")}, partial=True)}
+    I = Interp(P, ctx, natives=nat, opaque_fns=[])
+    I.loop_bound = 6
+    env = Struct("Env", {"types": Opaque("types"), "stack": Opaque("stack"), "id_gen": Opaque("idgen")}, partial=True)
+    I.call_user(P.fns["load_toplevel_items_"], [Vec([item], "slice"), env, Opaque("paths_seen"), Rc(ns), False])
+    exp_after = [kv[0] for kv in ns.fields["exported_syms"].entries]
+    val_after = [kv[0] for kv in ns.fields["values"].entries]
+
+    def member(names, c):
+        cs = [nm.fields["text"].chars()[0].z() for nm in names]
+        return _z3.Or(*[x == c for x in cs]) if cs else _z3.BoolVal(False)
+    return {"I": I, "public": public, "stub": stub, "n_exp": n_exp, "n_val": n_val,
+            "f_exported": member(exp_after, fc), "f_defined": member(val_after, fc),
+            "o_exported": member(exp_after, oc), "same_name": fc == oc}
+
+
+def native_replay_redefinition():
+    """A library that defines the same name twice with different visibility: the last definition's visibility counts."""
+    import os
+    import shutil
+    import subprocess
+    import tempfile
+    cases = {
+        "public-then-private": ("public fun v(): Int { 1 }\nfun v(): Int { 2 }\npublic fun w(): Int { 5 }\n", False),
+        "private-then-public": ("fun v(): Int { 1 }\npublic fun v(): Int { 2 }\npublic fun w(): Int { 5 }\n", True),
+    }
+    bad = []
+    for name, (lib, reachable) in cases.items():
+        for main in ('import "./lib.gdn" as l\nprintln(string_repr(l::v()))\n', 'import "./lib.gdn"\nprintln(string_repr(v()))\n'):
+            d = tempfile.mkdtemp(prefix="verif-c34d-", dir="/var/tmp")
+            try:
+                open(os.path.join(d, "lib.gdn"), "w").write(lib)
+                open(os.path.join(d, "main.gdn"), "w").write(main)
+                r = subprocess.run([native.garden_bin(), "run", os.path.join(d, "main.gdn")], capture_output=True, text=True, timeout=60,
+                                   stdin=subprocess.DEVNULL, cwd=d)
+                got = r.stdout.strip() == "2"
+                if r.returncode == 101 or got != reachable:
+                    bad.append({"case": name, "lib": lib, "main": main, "out": (r.stdout + r.stderr)[:200]})
+            finally:
+                shutil.rmtree(d, ignore_errors=True)
+    return {"reproduced": bool(bad), "artefact": bad[:1], "detail": f"{len(bad)} of 4 redefinition projects see the wrong visibility"}
+
+
+def run_fun_item_kernel(C, P):
+    import z3 as _z3
+    C.bounds["loader_fun_arm"] = {"items": "one `fun` item, public or not, built-in stub or not",
+                                  "namespace_before": "exported_syms and values empty or holding one symbolic name (possibly the same name)"}
+    C.assumptions += ["loader fun-arm kernel: Type::from_fun_info, is_built_in_stub (both answers) and update_built_in_fun_info are stubs"]
+    try:
+        res = explore(lambda ctx: run_fun_item(ctx, P), max_paths=2000)
+    except (Unsupported, UnwindExceeded) as ex:
+        C.inconclusive.append(f"loader fun arm not encodable: {str(ex)[:300]}")
+        return
+    C.note_paths(res)
+    rep_cache = {}
+
+    def rp(m):
+        if "r" not in rep_cache:
+            rep_cache["r"] = native_replay_redefinition()
+        return rep_cache["r"]
+    n = 0
+    for i, r in enumerate(res):
+        if r.kind == "panic":
+            C.prove_deferred(f"loader-fun/path{i}:no-panic", r.pc, False, site="loader/fun/panic", what=f"the loader panics on a fun item: {r.value}",
+                             replay=rp, soft=r.tainted)
+            continue
+        if r.kind != "ok":
+            continue
+        v = r.value
+        C.note_interp(v["I"])
+        n += 1
+        tag = f"loader-fun/path{i}/public={v['public']}/exported_before={v['n_exp']}"
+        C.prove_deferred(f"{tag}:exported-iff-public", r.pc, v["f_exported"] == _z3.BoolVal(v["public"]),
+                         site="loader/fun/export-status-stale",
+                         what=f"after loading a {'public' if v['public'] else 'non-public'} `fun f`, f's membership of exported_syms does not "
+                              f"match this definition's visibility",
+                         replay=rp, soft=False, model_desc=lambda m, v=v: {"public": v["public"], "exported_before": v["n_exp"], "model": str(m)[:120]})
+        if not v["stub"]:
+            C.prove_deferred(f"{tag}:defined", r.pc, v["f_defined"], site="loader/fun/not-defined",
+                             what="after loading `fun f`, f is not in the namespace's values", replay=rp, soft=False)
+        if v["n_exp"]:
+            C.prove_deferred(f"{tag}:others-unchanged", r.pc, _z3.Implies(_z3.Not(v["same_name"]), v["o_exported"]),
+                             site="loader/fun/other-export-dropped", what="loading `fun f` changes another name's export status",
+                             replay=rp, soft=False)
+    C.reach("loader/fun-paths-exist", [_z3.BoolVal(n > 0)])
+    rep = native_replay_redefinition()
+    if rep["reproduced"]:
+        C.validation_mismatch(f"redefinition projects fail on the unchanged tree: {rep['artefact']}")
+    else:
+        C.validated_against_impl(4)
